@@ -224,6 +224,7 @@ type replayGen struct {
 	bases  map[string]string // base ref value + elem type -> Go variable of the backing array
 	fail   string
 	imports map[string]bool
+	topDecls []string
 	pkg    *types.Package
 	pre    *State
 }
@@ -402,7 +403,12 @@ func (g *replayGen) build(term string, t types.Type, depth int) (string, bool) {
 				return "", false
 			}
 			g.imports["math/big"] = true
+			bkey := "bigptr/" + g.vals[term]
+			if v, ok := g.bases[bkey]; ok {
+				return v, true
+			}
 			v := g.newVar("big")
+			g.bases[bkey] = v
 			g.decls = append(g.decls, fmt.Sprintf("%s, _ := new(big.Int).SetString(%q, 10)", v, g.vals[bt]))
 			return v, true
 		}
@@ -433,7 +439,7 @@ func (g *replayGen) build(term string, t types.Type, depth int) (string, bool) {
 			}
 			ft := "(select " + fv.heapGet(g.pre, fk) + " " + term + ")"
 			switch f.Type().Underlying().(type) {
-			case *types.Interface, *types.Map, *types.Chan, *types.Signature, *types.Struct, *types.Array:
+			case *types.Map, *types.Chan, *types.Signature, *types.Array:
 				continue // left at the zero value; a use makes the replay diverge (reported as no-failing-input-found)
 			}
 			e, ok := g.build(ft, f.Type(), depth+1)
@@ -453,13 +459,67 @@ func (g *replayGen) build(term string, t types.Type, depth int) (string, bool) {
 		if g.vals["(itag "+term+")"] == "0" {
 			return "nil", true
 		}
-		g.fail = "non-nil interface input " + t.String()
-		return "", false
+		// stub implementing the interface: pure getters applied to this value return the model's values; any other method
+		// of the embedded (nil) interface panics, which makes the replay diverge rather than lie
+		if _, ok := t.(*types.Named); !ok {
+			g.fail = "non-nil unnamed interface input"
+			return "", false
+		}
+		stub := g.newVar("govcStub")
+		var methods []string
+		seen := map[string]bool{}
+		for _, pa := range fv.pureApps {
+			if seen[pa.obj.Name()] {
+				continue
+			}
+			if pa.recv != term {
+				eq := "(= " + pa.recv + " " + term + ")"
+				if !g.ask(eq) {
+					return "", false
+				}
+				if g.vals[eq] != "true" {
+					continue
+				}
+			}
+			seen[pa.obj.Name()] = true
+			msig := pa.obj.Type().(*types.Signature)
+			rt := msig.Results().At(0).Type()
+			var mparams []string
+			for pi := 0; pi < msig.Params().Len(); pi++ {
+				mparams = append(mparams, "_ "+g.typeStr(msig.Params().At(pi).Type()))
+			}
+			nBefore := len(g.decls)
+			savedBases := g.bases
+			g.bases = map[string]string{}
+			e, ok := g.build(pa.res.S, rt, depth+1)
+			g.bases = savedBases
+			if !ok {
+				if g.fail == "" {
+					g.fail = "cannot build the value returned by " + pa.obj.Name()
+				}
+				return "", false
+			}
+			body := append([]string{}, g.decls[nBefore:]...)
+			g.decls = g.decls[:nBefore]
+			methods = append(methods, fmt.Sprintf("func (s %s) %s(%s) %s {\n\t%s\n\treturn %s\n}\n", stub, pa.obj.Name(), strings.Join(mparams, ", "), g.typeStr(rt), strings.Join(body, "\n\t"), e))
+		}
+		g.topDecls = append(g.topDecls, fmt.Sprintf("type %s struct{ %s }\n\n%s", stub, g.typeStr(t), strings.Join(methods, "\n")))
+		return stub + "{}", true
 	case *types.Struct:
 		name := g.typeStr(t)
 		v := g.newVar("sv")
 		g.decls = append(g.decls, fmt.Sprintf("var %s %s", v, name))
 		named, _ := t.(*types.Named)
+		if named != nil && named.Obj().Pkg() != nil && named.Obj().Pkg().Path() == atomicPkg && named.Obj().Name() == "Flag" {
+			ft := "(" + fv.fieldAcc(t, u, 0) + " " + term + ")"
+			if !g.ask(ft) {
+				return "", false
+			}
+			if g.vals[ft] == "1" {
+				g.decls = append(g.decls, v+".Set()")
+			}
+			return v, true
+		}
 		for i := 0; i < u.NumFields(); i++ {
 			f := u.Field(i)
 			if !f.Exported() && (named == nil || named.Obj().Pkg() != g.pkg) {
@@ -581,20 +641,46 @@ func tryReplay(id string, o *Obligation, outDir string) (string, bool) {
 			}
 		}
 	}
-	found := false
-	for _, bound := range []int64{4, 16, 256, 0} {
-		g.extra = nil
-		if bound > 0 {
-			if len(lenTerms) == 0 {
-				continue
-			}
-			for _, lt := range lenTerms {
-				g.extra = append(g.extra, fv.mode.cmp("<=", lt, fv.mode.idx(bound), true))
+	for _, pa := range fv.pureApps {
+		if _, ok := pa.res.T.Underlying().(*types.Slice); ok {
+			lenTerms = append(lenTerms, "(scap "+pa.res.S+")", "(soff "+pa.res.S+")")
+		}
+	}
+	// interface-typed inputs are replayed with synthesised stubs, so prefer models whose dynamic types are none of the
+	// concrete types the code tests for
+	var stubFriendly []string
+	for i, p := range fn.Params {
+		if _, ok := p.Type().Underlying().(*types.Interface); ok {
+			for _, tag := range fv.eng.typeTags {
+				stubFriendly = append(stubFriendly, fmt.Sprintf("(not (= (itag %s) %d))", fv.params[i].S, tag))
 			}
 		}
-		g.vals = map[string]string{}
-		if vs, _ := getValues(g.q, o, g.extra, []string{"alloc0"}, g.file); vs != nil {
-			found = true
+	}
+	found := false
+	for _, friendly := range []bool{true, false} {
+		if friendly && len(stubFriendly) == 0 {
+			continue
+		}
+		for _, bound := range []int64{4, 16, 256, 0} {
+			g.extra = nil
+			if friendly {
+				g.extra = append(g.extra, stubFriendly...)
+			}
+			if bound > 0 {
+				if len(lenTerms) == 0 {
+					continue
+				}
+				for _, lt := range lenTerms {
+					g.extra = append(g.extra, fv.mode.cmp("<=", lt, fv.mode.idx(bound), true))
+				}
+			}
+			g.vals = map[string]string{}
+			if vs, _ := getValues(g.q, o, g.extra, []string{"alloc0"}, g.file); vs != nil {
+				found = true
+				break
+			}
+		}
+		if found {
 			break
 		}
 	}
@@ -658,6 +744,9 @@ func tryReplay(id string, o *Obligation, outDir string) (string, bool) {
 	b.WriteString(")\n\n")
 	if g.imports["math/big"] {
 		b.WriteString("func bigStr(x *big.Int) string {\n\tif x == nil {\n\t\treturn \"nil\"\n\t}\n\treturn x.String()\n}\n\n")
+	}
+	for _, d := range g.topDecls {
+		b.WriteString(d + "\n")
 	}
 	b.WriteString("func TestGovcReplay(t *testing.T) {\n")
 	for _, d := range g.decls {
